@@ -923,6 +923,13 @@ class NetworkGraph(AbstractBaseIR):
                     # result that numpy's dot gives for a 2D matrix times a scalar.
                     weight_mat = weight_mat.squeeze(axis=1)
                     eq = f"{t_str_final} = {w_str} * {s_str_final}"
+                elif len(tidx_unique) == 1 and tsize == 1:
+                    # Single scalar target: use a 1D weight vector so that the
+                    # product reduces to a scalar instead of a length-1 vector,
+                    # which cannot be assigned to a scalar slot of the state
+                    # derivative vector.
+                    weight_mat = weight_mat.squeeze(axis=0)
+                    eq = f"{t_str_final} = matvec({w_str}, {s_str_final})"
                 else:
                     eq = f"{t_str_final} = matvec({w_str}, {s_str_final})"
                 args[w_str] = {'vtype': 'constant', 'value': weight_mat, 'dtype': 'float', 'shape': weight_mat.shape}
